@@ -3,6 +3,7 @@ Seeded generation of run descriptors (DESIGN.md 3.2). One `random.Random` decide
 configuration first, then every step. The generator keeps a shadow reference model only to emit *valid*
 programs (live relation targets, caps on size); the shadow never decides an oracle.
 """
+import os
 import random
 
 from sim.lib import KINDS
@@ -100,12 +101,14 @@ class Gen:
         # ---- swarm configuration, drawn first
         self.boot_id = boot_id or rng.choice(list(BOOT_CONFIGS))
         self.n_sessions = rng.choice([1, 1, 2, 2, 3])
-        self.budget = rng.randint(self.P["min_steps"], self.P["max_steps"])
+        self.tier = os.environ.get("QCOSIM_TIER", "quick")
+        deep = self.tier == "thorough"
+        self.budget = rng.randint(self.P["min_steps"], self.P["max_steps"] + (14 if deep else 0))
         # size is a dimension too: a few runs build long / wide circuits (few observers, lifted size caps)
-        self.long = rng.random() < self.P.get("p_long", 0.01)
+        self.long = rng.random() < self.P.get("p_long", 0.01) * (2.5 if deep else 1.0)
         if self.long:
             self.budget = rng.randint(110, 300)
-        self.n_qubits = rng.randint(1, 4)
+        self.n_qubits = rng.randint(1, 5 if os.environ.get("QCOSIM_TIER") == "thorough" else 4)
         self.depth_cap = rng.randint(1, 3)
         pool = DRAWABLE if self.P.get("drawable_only") else ALL_KINDS
         if self.P.get("all_kinds") and rng.random() < 0.5:
@@ -152,7 +155,7 @@ class Gen:
 
     # ------------------------------------------------------------ helpers
     def swarm(self):
-        return {"long": self.long, "sessions": self.n_sessions, "qubits": self.n_qubits, "kinds": self.kinds, "durations": self.durs,
+        return {"tier": self.tier, "long": self.long, "sessions": self.n_sessions, "qubits": self.n_qubits, "kinds": self.kinds, "durations": self.durs,
                 "depth_cap": self.depth_cap, "budget": self.budget, "fault_free": self.fault_free,
                 "p_rel": self.p_rel}
 
